@@ -22,7 +22,12 @@ def streams(seed, tier):
     from props import C16
     # the frame reader is the first thing any datagram from the network reaches: the whole codec stream (round
     # trips, bit flips, truncated / extended / patched frames with recomputed CRCs, raw bytes) runs here too
-    return _hc.build_streams(["hostile", "pair", "tx", "rate"], seed, tier, 1.0) + C16.streams(seed, tier)
+    import hc_streams
+    # Client and Server (C03_client_total / C03_server_total) are tied through the endpoint streams: raw peers
+    # forging every frame type and sending raw bytes, real clients, all API calls
+    scale = 10 if tier == "thorough" else 1
+    ep = [hc_streams.ep_lifecycle(seed, 30 * scale), hc_streams.ep_forge(seed, 40 * scale), hc_streams.ep_amplify(seed, 30 * scale)]
+    return _hc.build_streams(["hostile", "pair", "tx", "rate"], seed, tier, 1.0) + C16.streams(seed, tier) + ep
 
 
 CODEC_KINDS = ("rt", "flip", "mutfix", "raw", "readfix", "crcpat")
@@ -31,4 +36,7 @@ CODEC_KINDS = ("rt", "flip", "mutfix", "raw", "readfix", "crcpat")
 def oracle(name, ops, out):
     if name.startswith("rate") or _hc.stream_of(name) in CODEC_KINDS:
         return rate_crash(ops, out) or (("frame reader panicked: %s" % [l for l in out if "PANIC" in l][0]) if any("PANIC" in l for l in out) else None)
+    if _hc.stream_of(name) in ("lifecycle", "forge", "amplify"):
+        from hc_oracles import ep_crash_oracle
+        return ep_crash_oracle(ops, out)
     return crash_oracle(ops, out)
